@@ -396,6 +396,9 @@ func verifCollect[K comparable, V any](m *Map[K, V]) []Tuple[K, V] {
 //@   ensures [copy] typeis(dst, *S) && unbox(dst, *S) != nil ==> ret == nil && *unbox(dst, *S) == src
 //@   ensures [append] typeis(dst, *[]S) && unbox(dst, *[]S) != nil ==> ret == nil && len(*unbox(dst, *[]S)) == old(len(*unbox(dst, *[]S))) + 1 &&
 //@       (*unbox(dst, *[]S))[old(len(*unbox(dst, *[]S)))] == src
+//@   ensures [append-any] typeis(dst, *[]any) && !typeis(dst, *S) && !typeis(dst, *[]S) && unbox(dst, *[]any) != nil ==> ret == nil &&
+//@       len(*unbox(dst, *[]any)) == old(len(*unbox(dst, *[]any))) + 1 && (*unbox(dst, *[]any))[old(len(*unbox(dst, *[]any)))] == box(S, src) &&
+//@       (forall i int :: {(*unbox(dst, *[]any))[i]} 0 <= i && i < old(len(*unbox(dst, *[]any))) ==> (*unbox(dst, *[]any))[i] == old((*unbox(dst, *[]any))[i]))
 //@   ensures [other] !typeis(dst, *S) && !typeis(dst, *[]S) && !typeis(dst, *[]any) && !typeis(dst, *string) && !typeis(dst, *[]string) ==> ret != nil && unchanged()
 
 // Unmarshal is given its frame only here: it may write anything reachable from
